@@ -134,8 +134,21 @@ def run(F, rep, tier):
     rep.floor(r1, "per-type arms", narms, 56)
     rep.analysed.update(dict(per_type_families=families, per_type_arms=narms))
     # the typeRef name table itself
-    if anchor(F, ME + "builders", "type_ref_to_feel_type") is None:
+    tr = anchor(F, ME + "builders", "type_ref_to_feel_type")
+    if tr is None:
         rep.missing_anchor(r1, ME + "builders::*::type_ref_to_feel_type")
+    else:
+        # the model parser hands over the text of <typeRef> verbatim (pretty-printed XML puts white space around it): the name table must be consulted
+        # with the trimmed text, otherwise ` number ` is taken for a reference to an item definition that does not exist and every value becomes null
+        ms = [m for m, _ in find_hir(F.hir[tr]["body"], lambda x: x.get("k") == "Match" and x.get("src") == "Normal")]
+        trimmed = any(find_hir(m["e"], lambda x: x.get("k") == "MethodCall" and x.get("method") in ("trim", "trim_matches", "split_whitespace")) for m in ms)
+        if ms and trimmed:
+            rep.ok(r1, "typeRef:normalised", "the typeRef text is trimmed before it is matched against the built-in type names")
+        elif ms:
+            rep.violation(r1, "typeRef:normalised", "type_ref_to_feel_type matches the raw typeRef text: `<typeRef> number </typeRef>` is not recognised as the built-in type",
+                          "%s:%s" % (F.hir[tr]["file"], F.hir[tr]["line"]))
+        else:
+            rep.missing_anchor(r1, "match on the typeRef text in type_ref_to_feel_type")
 
     # ---------------- R11.2
     cl = F.hir.get(anchor(F, ME + "builders", "item_definition_type") or "")
@@ -283,6 +296,31 @@ def run(F, rep, tier):
             else:
                 rep.violation(r4, key, "no per-item type test inside the item loop", "%s:%s" % (h["file"], clo.get("l")))
     rep.floor(r4, "collection evaluator closures", ncoll, 9)
+    # evaluators that check a value component by component / item by item must return the container they re-built from the checked parts
+    # (non-conforming parts replaced by null), not the input value
+    nre = 0
+    for n, h in sorted(F.hir.items()):
+        if not n.startswith(ME + "builders::item_definition::"):
+            continue
+        for clo, _ in find_hir(h["body"], lambda x: x.get("k") == "Closure"):
+            if not find_hir(clo["body"], lambda x: x.get("k") == "Loop"):
+                continue
+            fl = hirflow.Flow({"params": clo.get("params", []), "body": clo["body"]})
+            for c, args, cond, line, node in fl.calls:
+                if not (c or "").endswith("::check_allowed_values") or not args:
+                    continue
+                nre += 1
+                a = args[0]
+                key = "rebuilt:%s:%s" % (n.replace(ME, "").split("::")[-1], clo.get("name", "").split("::")[-1])
+                rooted_in_input = "('arg', 0)" in repr(a) and not (a and a[0] == "ctor")
+                if a and a[0] == "ctor" and not ("('arg', 0)" in repr(a) and "unwrap" not in repr(a)):
+                    rep.ok(r4, key, "returns the re-built %s" % a[1].split("::")[-1])
+                elif rooted_in_input:
+                    rep.violation(r4, key, "the evaluator checks the parts of its input in a loop but hands the *input value itself* to check_allowed_values (line %s): non-conforming "
+                                  "components / items are not replaced by null" % line, "%s:%s" % (h["file"], line))
+                else:
+                    rep.ok(r4, key, "returns a value built in the evaluator")
+    rep.floor(r4, "part-wise evaluators returning a re-built container", nre, 8)
     # allowed values on the success path of the simple evaluators
     nav = 0
     for n, h in sorted(F.hir.items()):
